@@ -153,28 +153,73 @@ def dualize(A, Xd):
     return [[D(A[i][j], Xd[i][j]) for j in range(3)] for i in range(3)]
 
 
-def gl_reference(N, sm, to, F0, F1, la, mu):
-    S1, E1 = svk_S(F1, la, mu)
+def behaviour(N, ps, E, la, mu):
+    """the mock small-strain behaviour: (stress matrix, tangent as Mandel matrix, axial strain or None).
+    Plane stress hypotheses (ps): the axial strain is eliminated from sigma_zz = 0."""
+    Ss = SSIZE[N]
+    ax = None
+    ezz = None
+    E = [[x for x in r] for r in E]
+    if ps:
+        ax = 2 if N == 2 else 1
+        E[ax][ax] = ZERO
+        ezz = -(la / (la + TWO * mu)) * trace(E)
+        E[ax][ax] = ezz
+        ls = TWO * mu * la / (la + TWO * mu)
+    else:
+        ls = la
+    S = add(scal(la * trace(E), ident()), scal(TWO * mu, E))
+    C = [[(ls if (i < 3 and j < 3) else ZERO) + (TWO * mu if i == j else ZERO) for j in range(Ss)] for i in range(Ss)]
+    if ps:
+        for i in range(Ss):
+            C[ax][i] = ZERO
+            C[i][ax] = ZERO
+    return S, C, ezz
+
+
+def contract(Cmat, X, N):
+    """Mandel 4th order tensor applied to a symmetric matrix"""
+    Ss = SSIZE[N]
+    xv = mandel(X, N)
+    r = [sum((Cmat[i][j] * xv[j] for j in range(Ss)), ZERO) for i in range(Ss)]
+    return of_mandel(r, N)
+
+
+def symm(A):
+    return scal(HALF, add(A, tr_(A)))
+
+
+def gl_reference(N, sm, to, F0, F1, la, mu, ps=False, ezz0=None):
+    """Green-Lagrange strategy. Plane stress: the axial component of the given F is 0 and the interface adds
+    sqrt(1 + 2 ezz) to it (ezz0 at the beginning of the step, the behaviour's output at the end)."""
+    E1 = scal(HALF, sub(mm(tr_(F1), F1), ident()))
     exp = {}
     for i, v in enumerate(mandel(E1, N)):
         exp["e%d" % i] = v
+    S1, C, ezz1 = behaviour(N, ps, E1, la, mu)
+    F1 = [[x for x in r] for r in F1]
+    F0 = [[x for x in r] for r in F0]
+    if ps:
+        ax = 2 if N == 2 else 1
+        exp["ezz"] = ezz1
+        F1[ax][ax] = F1[ax][ax] + fns("sqrt", [ONE + TWO * ezz1])
+        F0[ax][ax] = F0[ax][ax] + fns("sqrt", [ONE + TWO * ezz0])
     for i, v in enumerate(stress_in_measure(F1, S1, sm, N)):
         exp["s%d" % i] = v
     Ss, Ts = SSIZE[N], TSIZE[N]
     if to == 1:
         for i in range(Ss):
             for j in range(Ss):
-                Cij = (la if (i < 3 and j < 3) else ZERO) + (TWO * mu if i == j else ZERO)
-                exp["K%d_%d" % (i, j)] = Cij
+                exp["K%d_%d" % (i, j)] = C[i][j]
         return exp
-    lad, mud = D(la), D(mu)
+    # chain rule on an arbitrary dF: dS = C : sym(F^T dF) (dual numbers carry the first order terms exactly)
     for j in range(Ts):
         X = tbasis(j, N)
         if to == 3:
             # derivative with respect to DF = F1 F0^{-1} at fixed F0: dF1 = X F0
             X = mm(X, F0)
         Fd = dualize(F1, X)
-        Sd, _ = svk_S_dual(Fd, lad, mud)
+        Sd = dualize(S1, contract(C, symm(mm(tr_(F1), X)), N))
         if to == 0:
             col = mandel_d(scal_d(D(ONE) / det(Fd), mm(mm(Fd, Sd), tr_(Fd))), N)
         elif to == 2:
@@ -208,7 +253,7 @@ def mandel_d(A, N):
 
 # ---- Hencky strategy: composition of the C24 reference (Daleckii-Krein, second divided differences) with the
 #      elastic law and the stress / tangent conversions written as first order variations
-def hk_reference(N, sm, to, F0, F1, la, mu, l, M):
+def hk_reference(N, sm, to, F0, F1, la, mu, l, M, ps=False, ezz0=None):
     from m3 import M3
     Ss, Ts = SSIZE[N], TSIZE[N]
     l = list(l)
@@ -229,7 +274,16 @@ def hk_reference(N, sm, to, F0, F1, la, mu, l, M):
     exp = {}
     for i, v in enumerate(El.mandel(N)):
         exp["e%d" % i] = v
-    T = M3.one() * (la * El.trace()) + El * (TWO * mu)
+    Tl, C, ezz1 = behaviour(N, ps, [[x for x in r] for r in El.a], la, mu)
+    T = M3(Tl)
+    if ps:
+        # the interface overwrites the axial component of F by exp(ezz) before converting the stresses
+        exp["ezz"] = ezz1
+        F1 = [[x for x in r] for r in F1]
+        F0 = [[x for x in r] for r in F0]
+        F1[2][2] = fns("exp", [ezz1])
+        F0[2][2] = fns("exp", [ezz0])
+        Fm = M3(F1)
     eul = (to == 0)
     Nn = Fm * Mm if eul else Mm
     J = Fm.det()
@@ -256,7 +310,6 @@ def hk_reference(N, sm, to, F0, F1, la, mu, l, M):
     xs = [c24ref.eig(Nn, c24ref.Ebasis(a)) for a in range(Ss)]
     # p as Mandel matrix: rows a = (T-side), columns b: entry = mc_b(DK2(Nn, M, Th, E_a))
     prow = [DK_row(Nn, Mm, Th, a, N) for a in range(Ss)]
-    C = [[(la if (i < 3 and j < 3) else ZERO) + (TWO * mu if i == j else ZERO) for j in range(Ss)] for i in range(Ss)]
 
     def moduli(a, b):
         first = ZERO
@@ -276,13 +329,8 @@ def hk_reference(N, sm, to, F0, F1, la, mu, l, M):
     iF = inv(Fl)
 
     def contract(Cmat, X):
-        """Mandel 4th order tensor applied to a symmetric matrix"""
-        xv = mandel(X, N)
-        r = [sum((Cmat[i][j] * xv[j] for j in range(Ss)), ZERO) for i in range(Ss)]
-        return of_mandel(r, N)
-
-    def sym(A):
-        return scal(HALF, add(A, tr_(A)))
+        return globals()["contract"](Cmat, X, N)
+    sym = symm
     for j in range(Ts):
         X = tbasis(j, N)
         if to == 3:
@@ -317,15 +365,25 @@ def DK_row(Nn, Mm, Th, a, N):
 def unit_ref(name):
     strat, Ns, sms, tos = name.split("_")
     N, sm, to = int(Ns[1]), int(sms[2]), int(tos[2])
+    ps = Ns.endswith("p")
+    ax = 2 if N == 2 else 1
 
     def f(rng):
         env = {}
+        ezz0 = None
+        if ps:
+            ezz0 = rq(rng)
+            env["ezza"] = ezz0
         Ts = TSIZE[N]
         F0v = [rq(rng, True) for _ in range(3)] + [rq(rng) for _ in range(6)]
         F1v = [rq(rng, True) for _ in range(3)] + [rq(rng) for _ in range(6)]
         for i in range(Ts):
             env["Fa%d" % i] = F0v[i]
             env["F%d" % i] = F1v[i]
+        if ps and strat == "GL":
+            # the axial component handed by the caller is the constant 0 in the traced units
+            F0v[ax] = ZERO
+            F1v[ax] = ZERO
         F0 = of_tens(F0v[:Ts], N)
         F1 = of_tens(F1v[:Ts], N)
         for i in range(9):
@@ -333,7 +391,7 @@ def unit_ref(name):
         la, mu = rq(rng, True), rq(rng, True)
         env["la"], env["mu"] = la, mu
         if strat == "GL":
-            return env, gl_reference(N, sm, to, F0, F1, la, mu)
+            return env, gl_reference(N, sm, to, F0, F1, la, mu, ps, ezz0)
         l = c24ref.distinct_vp(rng)
         M = [[rq(rng) for _ in range(3)] for _ in range(3)]
         if N == 2:
@@ -350,40 +408,41 @@ def unit_ref(name):
                 env["m%d%d" % (i, j)] = M[i][j]
                 env["ma%d%d" % (i, j)] = rq(rng)
         if N == 1:
-            return env, hk1d_reference(sm, to, F0, F1, la, mu)
+            return env, hk1d_reference(sm, to, F0, F1, la, mu, ps, ezz0)
         if to in (0,) or to == 1 or to == 2:
             pass
-        return env, hk_reference(N, sm, to, F0, F1, la, mu, l, M)
+        return env, hk_reference(N, sm, to, F0, F1, la, mu, l, M, ps, ezz0)
     return f
 
 
-def hk1d_reference(sm, to, F0, F1, la, mu):
-    """1D: everything is diagonal; E_log,i = log F_i"""
+def hk1d_reference(sm, to, F0, F1, la, mu, ps=False, ezz0=None):
+    """1D: everything is diagonal; E_log,i = log F_i. Plane stress: F_zz (index 1) is overwritten by exp(ezz)."""
     Fv = [F1[i][i] for i in range(3)]
+    F0v = [F0[i][i] for i in range(3)]
     e = [fns("log", [x]) for x in Fv]
-    tre = e[0] + e[1] + e[2]
-    T = [la * tre + TWO * mu * e[i] for i in range(3)]
-    J = Fv[0] * Fv[1] * Fv[2]
     exp = {}
     for i in range(3):
         exp["e%d" % i] = e[i]
+    Tm, C, ezz1 = behaviour(1, ps, [[e[i] if i == j else ZERO for j in range(3)] for i in range(3)], la, mu)
+    T = [Tm[i][i] for i in range(3)]
+    if ps:
+        exp["ezz"] = ezz1
+        Fv[1] = fns("exp", [ezz1])
+        F0v[1] = fns("exp", [ezz0])
+    J = Fv[0] * Fv[1] * Fv[2]
+    for i in range(3):
         sig = T[i] / J
         exp["s%d" % i] = {0: sig, 1: T[i] / (Fv[i] * Fv[i]), 2: T[i] / Fv[i]}[sm]
-    C = [[la + (TWO * mu if i == j else ZERO) for j in range(3)] for i in range(3)]
-    F0v = [F0[i][i] for i in range(3)]
     for i in range(3):
         for j in range(3):
             dT = C[i][j] / Fv[j]          # dT_i/dF_j
             if to == 1:
                 v = (C[i][j] - (TWO * T[i] if i == j else ZERO)) / (Fv[i] * Fv[i] * Fv[j] * Fv[j])
             elif to == 2:
-                # P_i = T_i / F_i
                 v = dT / Fv[i] - (T[i] / (Fv[i] * Fv[i]) if i == j else ZERO)
             elif to == 0:
-                # sigma_i = T_i / J
                 v = dT / J - T[i] / (J * Fv[j])
             else:
-                # tau_i = T_i, derivative w.r.t. DF_j = F_j / F0_j
                 v = dT * F0v[j]
             exp["K%d_%d" % (i, j)] = v
     return exp
